@@ -176,10 +176,50 @@ func solveAll(prelude string, encs []*FnEnc, dir string, timeoutSec, workers int
 						tmo = 5
 						order = []int{0, 1}
 					}
-				} else {
-					fmt.Fprintf(&b, "(assert (not %s))\n(check-sat)\n", j.ob.Goal)
 				}
 				file := filepath.Join(dir, fmt.Sprintf("ob%04d_%s.smt2", j.n, sanitize(j.ob.Name)))
+				if !j.ob.Cover {
+					// conjunctive goals are proved conjunct by conjunct (one query each)
+					parts := splitGoal(j.ob.Goal)
+					head := b.String()
+					var agg *SolveResult
+					for pi, part := range parts {
+						pf := file
+						if len(parts) > 1 {
+							pf = strings.TrimSuffix(file, ".smt2") + fmt.Sprintf(".p%d.smt2", pi)
+						}
+						script := head + fmt.Sprintf("(assert (not %s))\n(check-sat)\n", part)
+						r := discharge(script, pf, tmo, false, order)
+						if r.Status != "unsat" && r.Status != "sat" {
+							r2 := discharge(script, pf, tmo, false, []int{2})
+							r.Tried = append(r.Tried, r2.Tried...)
+							if r2.Status == "unsat" || r2.Status == "sat" {
+								r2.Tried = r.Tried
+								r2.Seconds += r.Seconds
+								r = r2
+							} else if r.Status == "error" && r2.Status != "error" {
+								r.Status = r2.Status
+							}
+						}
+						if agg == nil {
+							agg = r
+						} else {
+							agg.Seconds += r.Seconds
+							agg.Tried = append(agg.Tried, r.Tried...)
+							if r.Status != "unsat" {
+								agg.Status, agg.Output, agg.File, agg.Solver = r.Status, r.Output, r.File, r.Solver
+							}
+						}
+						if r.Status != "unsat" {
+							break
+						}
+					}
+					j.ob.Result = agg
+					if agg.Status != "unsat" {
+						atomic.AddInt32(&nFailed, 1)
+					}
+					continue
+				}
 				j.ob.Result = discharge(b.String(), file, tmo, false, order)
 				if !j.ob.Cover && j.ob.Result.Status != "unsat" && j.ob.Result.Status != "sat" {
 					// second stage: cvc5 alone
@@ -219,4 +259,43 @@ func getModel(file string) string {
 	defer os.Remove(mf)
 	_, out, _ := runSolver(solvers[1], mf, 20)
 	return out
+}
+
+// splitGoal splits a goal into conjuncts: (and a b) and (=> p (and a b)) are proved part by part.
+func splitGoal(goal string) []string {
+	x, err := parseOneSX(goal)
+	if err != nil {
+		return []string{goal}
+	}
+	parts := splitSX(x)
+	if len(parts) > 12 || len(parts) < 2 {
+		return []string{goal}
+	}
+	out := make([]string, len(parts))
+	for i, p := range parts {
+		out[i] = p.String()
+	}
+	return out
+}
+
+func splitSX(x *SX) []*SX {
+	if x.IsL && len(x.List) >= 2 && !x.List[0].IsL {
+		switch x.List[0].Atom {
+		case "and":
+			var out []*SX
+			for _, c := range x.List[1:] {
+				out = append(out, splitSX(c)...)
+			}
+			return out
+		case "=>":
+			if len(x.List) == 3 {
+				var out []*SX
+				for _, q := range splitSX(x.List[2]) {
+					out = append(out, &SX{IsL: true, List: []*SX{x.List[0], x.List[1], q}})
+				}
+				return out
+			}
+		}
+	}
+	return []*SX{x}
 }
